@@ -104,7 +104,7 @@ func runC20(cfg *config) error {
 	}
 	res.Evaluations = len(cases)
 	res.Nontrivial = len(seen)
-	res.Rule = "random op sequences (EnsureChanges incl. invalid ranges, ExpandRange, ReplaceOrInsert, RemoveChangesByActor, ChangesInRange) against the real mongo.ChangeStore over a ground-truth table with holes; 2/3 disciplined (caller obligations of mongo/client.go respected; transparency and no-refetch oracles evaluated), 1/3 free (model/implementation tie only); non-trivial = at least one Ensure answered partly from cache over a hole or a previously fetched range; distinct = distinct rendered case"
+	res.Rule = "random op sequences (EnsureChanges incl. invalid ranges and, one in five, a fetcher that fails on its 1st-3rd call, ExpandRange, ReplaceOrInsert, RemoveChangesByActor, ChangesInRange) against the real mongo.ChangeStore over a ground-truth table with holes; 2/3 disciplined (caller obligations of mongo/client.go respected; transparency and no-refetch oracles evaluated), 1/3 free (model/implementation tie only); non-trivial = at least one Ensure answered partly from cache over a hole or a previously fetched range; distinct = distinct rendered case"
 	var files []string
 	const shard = 400
 	res.CaseShard = shard
@@ -165,8 +165,20 @@ func c20Case(r *rng.R, disciplined bool, res *Result) (string, bool, []Violation
 				t = head
 			}
 			var asked [][2]int64
+			// one Ensure in five runs with a fetcher whose (failAt+1)-th call fails (a storage error
+			// in the middle of EnsureChanges); what was fetched before the failure stays, the
+			// failing range and those after it must not count as fetched
+			failAt := -1
+			if r.Chance(1, 5) {
+				failAt = r.Pick(4, 2, 1)
+			}
+			failed := false
 			err := st.EnsureChanges(f, t, func(a, b int64) ([]*database.ChangeInfo, error) {
 				asked = append(asked, [2]int64{a, b})
+				if len(asked)-1 == failAt {
+					failed = true
+					return nil, fmt.Errorf("injected fetch failure")
+				}
 				var out []*database.ChangeInfo
 				for q := a; q <= b; q++ {
 					if c, ok := table[q]; ok {
@@ -175,8 +187,26 @@ func c20Case(r *rng.R, disciplined bool, res *Result) (string, bool, []Violation
 				}
 				return out, nil
 			})
-			ops = append(ops, coqfmt.App("OEnsure", coqfmt.Z(f), coqfmt.Z(t), coqfmt.Bool(err != nil), rangesCoq(asked)))
+			if failAt >= 0 {
+				ops = append(ops, coqfmt.App("OEnsureFail", coqfmt.Z(f), coqfmt.Z(t), fmt.Sprint(failAt), coqfmt.Bool(err != nil), rangesCoq(asked)))
+				res.count("op.ensure.failing-fetcher")
+			} else {
+				ops = append(ops, coqfmt.App("OEnsure", coqfmt.Z(f), coqfmt.Z(t), coqfmt.Bool(err != nil), rangesCoq(asked)))
+			}
 			res.count("op.ensure")
+			if failed {
+				res.count("op.ensure.fetch-failed")
+				// only what was fetched before the failure is known to the store
+				for _, a := range asked[:len(asked)-1] {
+					for q := a[0]; q <= a[1]; q++ {
+						covered[q] = true
+						if _, ok := table[q]; ok {
+							present[q] = true
+						}
+					}
+				}
+				break
+			}
 			if err != nil {
 				res.count("op.ensure.invalid")
 				break
